@@ -21,8 +21,45 @@ def _budget(lv: dict) -> float:
     return b * 3 if b <= 200 else b
 
 
+# thorough tier: the quick levels stay required; every deeper level is exploratory ("completed or not claimed"):
+# it has its own budget, and once the whole check has used THOROUGH_CAP_S the remaining deep levels are not started
+# (they are listed as not completed, not claimed).  A level that does not complete is never counted as held.
+THOROUGH_CAP_S = float(os.environ.get('VERIF_THOROUGH_CAP_S', '2400'))
+DEEP_LEVEL_BUDGET_S = float(os.environ.get('VERIF_DEEP_LEVEL_S', '600'))
+T_START = time.time()
+
+
+def tiered(levels_fn: Any, tier: str) -> list[dict]:
+    if tier != 'thorough':
+        return levels_fn(tier)
+    base = levels_fn('quick')
+    seen = {l['label'] for l in base}
+    deep = []
+    for l in levels_fn('thorough'):
+        if l['label'] in seen:
+            continue
+        l = dict(l)
+        l['required'] = False
+        l['deep'] = True
+        l['budget_s'] = max(201.0, min(float(l.get('budget_s', 600.0)), DEEP_LEVEL_BUDGET_S))
+        deep.append(l)
+    return base + deep
+
+
+def _not_started() -> Any:
+    st = symx.Stats()
+    st.complete = False
+    return st
+
+
+def _capped(lv: dict) -> bool:
+    return bool(lv.get('deep')) and time.time() - T_START > THOROUGH_CAP_S
+
+
 def _one_level(lv: dict) -> tuple:
     t0 = time.time()
+    if _capped(lv):
+        return lv, _not_started(), 0.0, None
     st = engine.explore(lv['module'], lv['fn'], lv['kwargs'], budget_s=_budget(lv), nproc=1)
     wall = time.time() - t0
     tw = None
@@ -66,6 +103,13 @@ def run_levels(levels: list[dict], total_budget_s: float | None = None) -> dict:
     twinned: set[str] = set()
     for lv in levels:
         if total_budget_s is not None and time.time() - t_start > total_budget_s and not lv.get('required'):
+            continue
+        if _capped(lv):
+            rec = dict(lv)
+            rec['stats'] = _not_started()
+            rec['wall_s'] = 0.0
+            rec['label'] = lv['label'] + ' (not started: time cap)'
+            out['levels'].append(rec)
             continue
         t0 = time.time()
         st = engine.explore(lv['module'], lv['fn'], lv['kwargs'], budget_s=_budget(lv))
